@@ -73,6 +73,10 @@ def generate(rng, tier):
             # refresh shortly after (within / beyond the browser delay): keeps or moves the slot
             ops.append(_ptr(t + rng.choice([0.5, 0.999, 1.0, 5.0, 9.999, 10.001, 30.0, 61.0]), ty, name, ttl))
         t += rng.choice([0.0, 0.001, 1.0, 10.0, 40.0, 300.0, 900.0, 2000.0]) * rng.random()
+    for b in browsers:
+        if rng.random() < 0.25:
+            ops.append({"t": round(rng.choice([5.0, 100.0, 900.0, 1500.0, 3000.0]) + rng.random(), 6), "op": "cancel",
+                        "h": "B", "id": b["id"]})
     ops = [o for o in ops if o["t"] < horizon - 1.0]
     ops.sort(key=lambda o: o["t"])
     faults = {"max_delay_us": rng.choice([0, 1000, 100000]), "loop_delay_us": rng.choice([0, 1000]),
@@ -158,8 +162,14 @@ def _oracle(w, drv, sc, model, updates, out):
                 passes[-1][1].update({k: v for k, v in qs.items() if k in types})
             else:
                 passes.append((t, {k: v for k, v in qs.items() if k in types}))
+        if lst.cancelled is not None:
+            lateq = [t for t, qs in passes if t > lst.cancelled + 1e-9]
+            if lateq:
+                out.add("C10.query-after-cancel", f"browser {b['id']} was cancelled at {w.rel(lst.cancelled):.3f} but "
+                        f"queried at {[round(w.rel(t), 3) for t in lateq][:4]}")
+            passes = [p for p in passes if p[0] <= lst.cancelled + 1e-9]
         # (a) start-up
-        if end - start > 15.0:
+        if (lst.cancelled if lst.cancelled is not None else end) - start > 15.0:
             if len(passes) < 4:
                 out.add("C10.startup-count", f"browser {b['id']}: only {len(passes)} queries within the run, expected 4 "
                         "start-up queries")
